@@ -376,24 +376,35 @@ func ruleHamming(p *Prog, r *Report) {
 		eachCall(f, func(site ssa.CallInstruction) {
 			c := site.Common()
 			callee := c.StaticCallee()
-			if callee == nil || len(c.Args) != 1 {
+			if callee == nil {
 				return
 			}
-			if !isPopcount(callee) {
+			var xa, xb ssa.Value
+			switch {
+			case len(c.Args) == 1 && isPopcount(callee):
+				x, ok := c.Args[0].(*ssa.BinOp)
+				if !ok || x.Op != token.XOR {
+					npop++
+					bad = "popcount argument is not an XOR"
+					return
+				}
+				xa, xb = x.X, x.Y
+			case len(c.Args) == 2 && isPopPair(callee):
+				// helper(a, b) = OnesCount64(a ^ b)
+				xa, xb = c.Args[0], c.Args[1]
+				if hi := typeRange(callee.Signature.Results().At(0).Type()).hi; hi < 64 {
+					bad = fmt.Sprintf("the per-word helper %s returns a type that cannot hold 64", fnName(callee))
+				}
+			default:
 				return
 			}
 			npop++
-			x, ok := c.Args[0].(*ssa.BinOp)
-			if !ok || x.Op != token.XOR {
-				bad = "popcount argument is not an XOR"
-				return
-			}
-			ia, oka := wordIndex(x.X, f.Params[0])
-			ib, okb := wordIndex(x.Y, f.Params[1])
+			ia, oka := wordIndex(xa, f.Params[0])
+			ib, okb := wordIndex(xb, f.Params[1])
 			if !oka || !okb {
 				// maybe swapped
-				ia, oka = wordIndex(x.X, f.Params[1])
-				ib, okb = wordIndex(x.Y, f.Params[0])
+				ia, oka = wordIndex(xa, f.Params[1])
+				ib, okb = wordIndex(xb, f.Params[0])
 			}
 			if !oka || !okb {
 				bad = "XOR operands are not words of the two hashes"
@@ -415,12 +426,24 @@ func ruleHamming(p *Prog, r *Report) {
 				bad = fmt.Sprintf("%d words compared, hash has %d", len(used), words)
 			}
 		}
-		// result must be the sum of the popcounts (no other arithmetic): every BinOp in f is XOR or ADD
+		// result must be the sum of the popcounts (no other arithmetic): every BinOp in f is XOR or ADD; the sum and
+		// every conversion of a count must be able to hold 64 bits per word (a narrower accumulator wraps for
+		// hashes that differ in every bit)
 		eachInstr(f, func(_ *ssa.BasicBlock, _ int, in ssa.Instruction) {
 			if bo, ok := in.(*ssa.BinOp); ok && bo.Op != token.XOR && bo.Op != token.ADD {
 				bad = "unexpected arithmetic " + bo.Op.String() + " in Distance"
 			}
+			if bo, ok := in.(*ssa.BinOp); ok && bo.Op == token.ADD && isIntType(bo.Type()) {
+				if hi := typeRange(bo.Type()).hi; hi < 64*words {
+					bad = fmt.Sprintf("the counts of %d words are summed in %s, which cannot hold %d: the distance of a hash and its complement wraps", words, bo.Type(), 64*words)
+				}
+			}
 		})
+		if res := f.Signature.Results(); res.Len() == 1 {
+			if hi := typeRange(res.At(0).Type()).hi; hi < 64*words {
+				bad = fmt.Sprintf("the result type %s cannot hold %d", res.At(0).Type(), 64*words)
+			}
+		}
 		if bad != "" {
 			r.Bad("HAMMING", key, at, bad)
 		} else {
@@ -441,6 +464,25 @@ func isPopcount(f *ssa.Function) bool {
 	eachCall(f, func(site ssa.CallInstruction) {
 		if isCallTo(site.Common(), "math/bits.OnesCount64") && site.Common().Args[0] == ssa.Value(f.Params[0]) {
 			ok = true
+		}
+	})
+	return ok
+}
+
+// isPopPair: f(a, b uint64) = (conversion of) OnesCount64(a ^ b), in one block.
+func isPopPair(f *ssa.Function) bool {
+	if !isRepoFn(f) || len(f.Blocks) != 1 || len(f.Params) != 2 {
+		return false
+	}
+	ok := false
+	eachCall(f, func(site ssa.CallInstruction) {
+		if !isCallTo(site.Common(), "math/bits.OnesCount64") {
+			return
+		}
+		if x, isX := site.Common().Args[0].(*ssa.BinOp); isX && x.Op == token.XOR {
+			if (x.X == ssa.Value(f.Params[0]) && x.Y == ssa.Value(f.Params[1])) || (x.X == ssa.Value(f.Params[1]) && x.Y == ssa.Value(f.Params[0])) {
+				ok = true
+			}
 		}
 	})
 	return ok
